@@ -21,7 +21,8 @@ Keys4 == {"k1", "k2", "k3", "k4"}
 Keys5 == {"k1", "k2", "k3", "k4", "k5"}
 Keys6 == {"k1", "k2", "k3", "k4", "k5", "k6"}
 \* several handles (NH > 1)
-VarHQuick == {<<"secure", 1>>}
+VarHQuick == {<<"plain", 0>>, <<"secure", 1>>}
 VarHAll == {<<"plain", 0>>, <<"plain", 1>>, <<"secure", 0>>, <<"secure", 2>>}
 Keys3 == {"k1", "k2", "k3"}
+Keys2 == {"k1", "k2"}
 ====
